@@ -2,7 +2,7 @@
    Statements only; proofs in theories/PLoad_proofs.v.  L is a parameter of the model: every
    theorem holds for every build-time value of CBOR_MAX_STACK_SIZE; the value of this build is
    regenerated from a cmake configure of the working tree (Gen_config). *)
-From CB Require Import Word PStream PItem SpecItem PBuild SpecParse PLoad_proofs Bridge_config Bridge_inventory.
+From CB Require Import Word PStream PItem SpecItem PBuild SpecParse PLoad_proofs Bridge_config Bridge_inventory HHeap HOps HRef_proofs HCont_proofs HLoad_proofs HHist2_proofs.
 From CBGen Require Import Gen_config.
 Local Open Scope N_scope.
 
@@ -36,3 +36,18 @@ Proof. repeat split; vm_compute; reflexivity. Qed.
    is a 64-bit field: it cannot wrap before the limit for any configurable L *)
 Theorem C19_field_widths : forallb field_is_64 required_fields = true.
 Proof. exact bridge_field_widths. Qed.
+
+(* "release / copy / serialize / describe complete within recursion depth proportional to L":
+   the heap tree built by cbor_load under limit L is walked by the traversal shared by those
+   operations (HOps.abs; one level of recursion per level of the tree, chunks included) with
+   recursion depth L + 1 — for every L, every input, every prior heap.  [abs_fuel_needed]
+   (HHist2_proofs) shows the fuel really is the recursion depth: with less than the tree's height
+   the walk runs out. *)
+Theorem C19_traversal_depth : forall L cap own ownd buf w a c p r w',
+  SIZE_MAX <= cap -> bytes_ok buf -> len buf < 2 ^ 57 -> HCont_proofs.wf w -> Inv own ownd [] w ->
+  load_h grant L buf w = Ret (Some a, c, p, r) w' ->
+  exists t w'', load L cap buf = LOk t r /\ depth t <= L /\ (depth_nodes t <= N.to_nat L + 1)%nat /\
+    abs (S (N.to_nat L)) a w' = Ret t w'' /\
+    describe_walk (S (N.to_nat L)) a w' = Ret tt w''.
+Proof. exact HHist2_proofs.C19_traversal_depth. Qed.
+Print Assumptions C19_traversal_depth.
